@@ -71,6 +71,9 @@ func scenarios(tier string) []vlib.Scenario {
 	// the peer stops reading (keep-alive 20 s): a call and a metadata read with a 5 s context, and the Close behind them
 	out = append(out, vlib.Scenario{Name: params{"call-stalledwrite", 0, 0}.name(), P: params{"call-stalledwrite", 0, 0}})
 	out = append(out, vlib.Scenario{Name: params{"readmeta-stalledwrite", 0, 0}.name(), P: params{"readmeta-stalledwrite", 0, 0}})
+	// ... and the downstream's periodic ack flush is the write that stalls: reads, State and the Closes behind it
+	out = append(out, vlib.Scenario{Name: params{"read-stalledack", 0, 0}.name(), P: params{"read-stalledack", 0, 0}})
+	out = append(out, vlib.Scenario{Name: params{"read-stalledack", 0, 1}.name(), P: params{"read-stalledack", 0, 1}})
 	// an option value the wire layer refuses by panicking (the caller recovers): later calls still work
 	out = append(out, vlib.Scenario{Name: params{"badqos", 0, 0}.name(), P: params{"badqos", 0, 0}})
 	if tier == "thorough" {
@@ -301,7 +304,7 @@ func (w *world) main() {
 		}
 	}
 	var copts []iscp.ConnOption
-	if w.p.API == "upclose-stalledwrite" || w.p.API == "call-stalledwrite" || w.p.API == "readmeta-stalledwrite" {
+	if w.p.API == "upclose-stalledwrite" || w.p.API == "call-stalledwrite" || w.p.API == "readmeta-stalledwrite" || w.p.API == "read-stalledack" {
 		copts = append(copts, iscp.WithConnPingInterval(20*time.Second))
 	}
 	if err := w.Connect(w.script(), copts...); err != nil {
@@ -313,7 +316,7 @@ func (w *world) main() {
 	w.Phase = "setup"
 	api := w.p.API
 	needUp := api == "writeflush" || api == "upclose" || api == "writelate" || api == "writeblocked" || api == "upclose-stalledwrite"
-	needDown := api == "read" || api == "readmeta" || api == "downclose" || api == "downclose-flood" || api == "readmeta-stalledwrite"
+	needDown := api == "read" || api == "readmeta" || api == "downclose" || api == "downclose-flood" || api == "readmeta-stalledwrite" || api == "read-stalledack"
 	if needUp && api == "writelate" {
 		// an ack timeout is configured: an acknowledgement may arrive after its waiter has given up
 		w.up, _ = w.OpenUp(sctx, "u0", iscp.WithUpstreamFlushPolicyNone(), iscp.WithUpstreamQoS(message.QoSReliable), iscp.WithUpstreamCloseTimeout(3*time.Second), iscp.WithUpstreamAckTimeout(time.Second))
@@ -398,6 +401,26 @@ func (w *world) main() {
 		} else {
 			w.timed("Upstream.Close", callTimeout, false, func(ctx context.Context) error { return w.up.U.Close(ctx) })
 		}
+		w.timed("Conn.Close", callTimeout, false, func(ctx context.Context) error { return w.Conn.Close(ctx) })
+		link.HoldClientWrites = false
+		api = "connclose"
+	case "read-stalledack":
+		link := w.B.Live().Link
+		w.B.Send(w.B.Live(), chunkFor(w.B.Downs[0].Alias, "one"))
+		w.B.Send(w.B.Live(), chunkFor(w.B.Downs[0].Alias, "two"))
+		vsched.Quiesce()
+		w.timed("ReadDataPoints", callTimeout, false, func(ctx context.Context) error {
+			_, err := w.down.D.ReadDataPoints(ctx)
+			return err
+		})
+		link.HoldClientWrites = true
+		vsched.Sleep(300*time.Millisecond, "h:ack-flush-stalls") // the flush interval (100 ms) has passed: the ack write is stuck
+		w.timed("ReadDataPoints#2", callTimeout, false, func(ctx context.Context) error {
+			_, err := w.down.D.ReadDataPoints(ctx)
+			return err
+		})
+		w.timed("State", callTimeout, false, func(ctx context.Context) error { w.down.D.State(); return nil })
+		w.timed("Downstream.Close", callTimeout, false, func(ctx context.Context) error { return w.down.D.Close(ctx) })
 		w.timed("Conn.Close", callTimeout, false, func(ctx context.Context) error { return w.Conn.Close(ctx) })
 		link.HoldClientWrites = false
 		api = "connclose"
